@@ -23,6 +23,11 @@ Sub-checks
   <sub>-unc     every scalar forward case of temp, log-lin, log-frac, log-log, log-direct once more with an absolute
                 (0.25) and once with a relative (5 %) uncertainty attached to the quantity: same oracle, same tolerance
                 (the formulas of the statement do not depend on an uncertainty being present)
+  <sub>-tgt     the same cases with the target unit handed over as an object: value(BaseUnits(v)), to(BaseUnits(v)),
+                to(Quantity(1, v))
+  <sub>-attr    the same cases with the source built the documented way, x * Unit().<u>, on a Unit() object whose bare
+                attribute <u> has first been converted in place to the target (spellings that are identifiers)
+  level-aug     a += b and a -= b for every level unit (scalars over all value pairs, arrays as ndarray and list)
   temp-array / log-lin-array   the same conversions element-wise on an array, asked twice
 
 Not demanded (left out on purpose)
@@ -86,6 +91,8 @@ LIN_MORE = [1e-6, 7.3, 1e6]
 SUM_MORE = [10, 30]
 UNC_SUBS = ('temp', 'log-lin', 'log-frac', 'log-log', 'log-direct')
 UNC_KINDS = ('abse', 'rele')
+TGT_KINDS = ('value-baseunits', 'to-baseunits', 'to-quantity')   # target unit handed over as an object
+VARIANTS = {'-unc': UNC_KINDS, '-tgt': TGT_KINDS, '-attr': ('unit-attr',)}
 UNC_ABSE = 0.25          # absolute uncertainty attached in the *-unc cases
 UNC_RELE = 5.0           # relative uncertainty (percent)
 
@@ -275,6 +282,13 @@ def cases(tier, seed):
             if c[0] in UNC_SUBS:
                 for kind in UNC_KINDS:
                     add(c[0] + '-unc', c[1], c[2], c[3], kind)
+                # ... with the target unit given as a BaseUnits object (value() and to()) or as Quantity(1, v) (to())
+                for kind in TGT_KINDS:
+                    add(c[0] + '-tgt', c[1], c[2], c[3], kind)
+                # ... and with the source built the documented way  x * Unit().<u>  after the bare attribute of the same
+                # Unit() object has been converted in place (only spellings that are Python identifiers)
+                if c[1].isidentifier():
+                    add(c[0] + '-attr', c[1], c[2], c[3], 'unit-attr')
     # temperatures
     tunits = ['K', 'Cel', 'degF', 'degR'] + [p + 'K' for p in _PREF['K']]
     for u in tunits:
@@ -348,6 +362,14 @@ def cases(tier, seed):
             for kind in ('ndarray', 'list'):
                 add('level-array', u, '+', kind, sx, sy)
                 add('level-array', u, '-', kind, dx, dy)
+                add('level-aug', u, '+=', kind, sx, sy)
+                add('level-aug', u, '-=', kind, dx, dy)
+            # augmented assignment a += b, a -= b (scalars; the array forms are above)
+            for x in SUM_VALUES_:
+                for y in SUM_VALUES_:
+                    add('level-aug', u, '+=', 'scalar', (x,), (y,))
+                    if x > y:
+                        add('level-aug', u, '-=', 'scalar', (x,), (y,))
     _CASES[key] = out
     return out
 
@@ -384,8 +406,32 @@ def _quantity(x, u, unc=None):
     return Quantity(x, u)
 
 
-def _value(x, u, v, unc=None):
-    return _quantity(x, u, unc).value(v)
+def _target(v, var):
+    from scinumtools.units import Quantity
+    from scinumtools.units.base_units import BaseUnits
+    if var in ('value-baseunits', 'to-baseunits'):
+        return BaseUnits(v)
+    if var == 'to-quantity':
+        return Quantity(1, v)
+    return v
+
+
+def _from_unit_attribute(x, u, first_target):
+    """documented construction x * Unit().<u>, on a Unit() object whose bare attribute <u> has just been converted in
+    place to first_target"""
+    from scinumtools.units import Unit
+    U = Unit()
+    getattr(U, u).to(first_target)
+    return x * getattr(U, u)
+
+
+def _value(x, u, v, var=None):
+    if var == 'unit-attr':
+        return _from_unit_attribute(x, u, v).value(v)
+    q = _quantity(x, u, var)
+    if var in ('to-baseunits', 'to-quantity'):
+        return q.to(_target(v, var)).value()
+    return q.value(_target(v, var))
 
 
 def _array_twice(xs, u, v):
@@ -407,11 +453,27 @@ def _there_and_back(x, u, v):
     return (mid, q.value(), u if q.units() == spelled else q.units())
 
 
-def _via(x, u, mid, v, unc=None):
-    q = _quantity(x, u, unc)
-    q.to(mid)
-    q.to(v)
+def _via(x, u, mid, v, var=None):
+    q = _from_unit_attribute(x, u, mid) if var == 'unit-attr' else _quantity(x, u, var)
+    q.to(_target(mid, var))
+    q.to(_target(v, var))
     return q.value()
+
+
+def _aug(op, u, xs, ys, du, kind):
+    """a += b / a -= b; returns what a reports afterwards (read in decibels) and what b reports"""
+    import numpy as np
+    from scinumtools.units import Quantity
+    if kind == 'scalar':
+        a, b = Quantity(float(xs[0]), u), Quantity(float(ys[0]), u)
+    else:
+        mk = (lambda v: np.array(v, dtype=float)) if kind == 'ndarray' else (lambda v: [float(t) for t in v])
+        a, b = Quantity(mk(xs), u), Quantity(mk(ys), u)
+    if op == '+=':
+        a += b
+    else:
+        a -= b
+    return (np.atleast_1d(np.array(a.value(du), dtype=float)).tolist(), np.atleast_1d(b.value()).tolist())
 
 
 def _arith(ops, u, x, y, du):
@@ -459,17 +521,18 @@ def check_case(c, _unc=None):
     """Execute one case; return a failure record or None."""
     sub = c[0]
     rec = None
-    unc = None
-    if sub.endswith('-unc'):
-        # same case with an uncertainty attached: identical oracle, identical tolerance
-        unc = c[4]
-        rec = check_case((sub[:-4],) + tuple(c[1:4]), unc)
-        if rec is not None:
-            rec["sub"] = sub
-            rec["case"] = list(c)
-            rec["tags"] = sorted(set(rec["tags"]) | {"uncertainty=" + unc})
-        return rec
-    unc = _unc
+    for suffix in VARIANTS:
+        if sub.endswith(suffix):
+            # same case with an uncertainty attached / the target given as an object / the source built from a Unit()
+            # attribute: identical oracle, identical tolerance
+            var = c[4]
+            rec = check_case((sub[:-len(suffix)],) + tuple(c[1:4]), var)
+            if rec is not None:
+                rec["sub"] = sub
+                rec["case"] = list(c)
+                rec["tags"] = sorted(set(rec["tags"]) | {("uncertainty=" if suffix == '-unc' else "variant=") + var})
+            return rec
+    unc = _unc                                   # variant of the case (None for the plain one)
     if sub == 'temp':
         _, u, v, x = c
         exp = float(t_from_kelvin(t_to_kelvin(x, u), v))
@@ -575,6 +638,27 @@ def check_case(c, _unc=None):
         elif o[1][2] != u or not _close(o[1][1], exp, REL, 1e-9):
             rec = failure(sub, list(c), [exp, u], [o[1][1], o[1][2]], _tags(sub, u, v),
                           "round-trip-differs:rel~" + _relclass(o[1][1], exp))
+    elif sub == 'level-aug':
+        _, u, op, kind, xs, ys = c
+        xs, ys = [float(t) for t in xs], [float(t) for t in ys]
+        p, b = l_split(u)
+        du = 'd' + b
+        s = 10.0 * 10.0 ** SI[p]
+        sign = 1 if op == '+=' else -1
+        exp = [10 * math.log10(10.0 ** (x * s / 10) + sign * 10.0 ** (y * s / 10)) for x, y in zip(xs, ys)]
+        o = outcome(_aug, op, u, xs, ys, du, kind)
+        tags = ["unit=" + b, "given-as=" + kind, "op=" + op] + (["prefixed"] if p else [])
+        case = [c[0], u, op, kind, list(c[4]), list(c[5])]
+        if o[0] == 'err':
+            rec = failure(sub, case, exp, list(o), tags, "raises:" + o[1] + ":" + _short(o[2]))
+        else:
+            r1, bval = o[1]
+            if len(r1) != len(exp):
+                rec = failure(sub, case, exp, r1, tags, "wrong-shape:%d-instead-of-%d" % (len(r1), len(exp)))
+            elif not all(_close(g, e, REL, 1e-9) for g, e in zip(r1, exp)):
+                rec = failure(sub, case, exp, r1, tags, "wrong-value:augmented-assignment")
+            elif bval != ys:
+                rec = failure(sub, case, ys, bval, tags, "operand-level-changed")
     elif sub == 'level-array':
         _, u, op, kind, xs, ys = c
         xs, ys = [float(t) for t in xs], [float(t) for t in ys]
@@ -680,7 +764,7 @@ def replay(rec):
 def finish(total, tier, seed):
     h = total.hist
     subs = ['temp', 'temp-rt', 'log-lin', 'log-lin-rt', 'log-frac', 'log-log', 'log-direct', 'log-direct-rt',
-            'level-sum', 'level-diff', 'level-seq', 'level-array', 'temp-array', 'log-lin-array'] + [x + '-unc' for x in UNC_SUBS]
+            'level-sum', 'level-diff', 'level-seq', 'level-array', 'level-aug', 'temp-array', 'log-lin-array'] + [x + suf for x in UNC_SUBS for suf in VARIANTS if not (x == 'log-frac' and suf == '-attr')]
     per = {s: h.get(s + ":ok", 0) + h.get(s + ":fail", 0) for s in subs}
     empty = [s for s, n in per.items() if n == 0]
     if empty:
@@ -710,7 +794,9 @@ MANIFEST = dict(
          "PR; a+b and a-b (a>b) for every bel/decibel unit over {0,1,2,83,87}^2 (thorough 7 values) against the power "
          "sum, each evaluated twice on the same objects, plus the sequence a+b, a-b, b+a, a+b on one pair, and element-wise "
          "on array-valued levels (ndarray and list); every scalar "
-         "forward conversion again with an absolute and a relative uncertainty attached; array conversions asked twice. "
+         "forward conversion again with an absolute and a relative uncertainty attached, with the target given as a "
+         "BaseUnits / Quantity object, and with the source built as x*Unit().<u> after an in-place conversion of the bare "
+         "attribute; augmented assignments a+=b, a-=b; array conversions asked twice. "
          "22 996 cases per quick run, about 6e4 in the thorough tier, every one executed.",
     note="Numerical agreement to 1e-9 relative (identity 1e-12), not bit-exact; magnitudes are a finite alphabet of "
          "representatives, other magnitudes rely on the formulas being value-independent; prefix `da`, undocumented "
